@@ -162,6 +162,10 @@ var c06Reqs = []c06Req{
 		[]map[string]interface{}{v("h", true, "t", "A"), v("h", false, "t", "A"), v("h", false, "t", "B"), v("h", true, "t", "B")}, nil},
 	{"abs-dir-var-list", `query($h:Boolean!){ nodes(n:3) { id ... @skip(if:$h) { name } ... on B { peer { id @skip(if:$h) name } } } }`, "",
 		[]map[string]interface{}{v("h", true), v("h", false)}, nil},
+	// the same field with the same literals in the operation and in a named fragment
+	{"lit-op-and-frag", `{ echo(i:1, s:"a") ...F } fragment F on Query { echo(i:1, s:"a") x1 }`, "", nil, nil},
+	{"lit-op-and-frag-2", `{ echo(i:2, s:"b") ...F } fragment F on Query { echo(i:2, s:"b") x1 }`, "", nil, nil},
+	{"lit-op-and-frag-nested", `{ a { name(up:true) items(n:2) { n } ...G } echo(i:3) } fragment G on A { name(up:true) items(n:2) { label } }`, "", nil, nil},
 	// occurrences of one response key under different variable-driven conditions
 	{"cond-dup", `query($s:Boolean!){ x1 @skip(if:$s) x1 a @skip(if:$s) { name } a { id } ...F @skip(if:$s) ...F echo(i:1) } fragment F on Query { x2 }`, "",
 		[]map[string]interface{}{v("s", true), v("s", false)}, nil},
